@@ -369,6 +369,62 @@ class LLAdapter(Adapter):
         return out
 
 
+class PMAdapter(Adapter):
+    """chi.PredictiveModel.fix_parameters: reducible in place, forwards the
+    dictionary to the mechanistic and to every error sub-model."""
+
+    def __init__(self, B, ems):
+        self.B, self.ems = B, ems
+        self.n_mech = 2
+        self.times = [1.0, 2.5]
+        self._n = self.n_mech + sum(refs.em_nparams(e) for e in ems)
+
+    def n(self):
+        return self._n
+
+    def raw(self):
+        mm = SymMechModel(self.B, n_params=self.n_mech,
+                          n_outputs=len(self.ems))
+        return chi.PredictiveModel(
+            mm, [refs.error_model(e) for e in self.ems])
+
+    def reduced(self):
+        return self.raw()
+
+    def names(self, obj):
+        return obj.get_parameter_names()
+
+    def count(self, obj):
+        return obj.n_parameters()
+
+    def assume(self, full):
+        B = self.B
+        psi = full[:self.n_mech]
+        k = self.n_mech
+        mm = SymMechModel(B, n_params=self.n_mech, n_outputs=len(self.ems))
+        for o, e in enumerate(self.ems):
+            npar = refs.em_nparams(e)
+            yb = [mm.sym_output('out%d' % o, t, psi) for t in self.times]
+            refs.em_assume_support(B, e, full[k:k + npar], yb)
+            k += npar
+
+    def evaluate(self, obj, x, free_idx):
+        B = self.B
+        out = {}
+        if B.symbolic:
+            B.new_rng()
+            s = obj.sample(ps.arr(B, x), self.times, n_samples=1, seed=4,
+                           return_df=False)
+            out['sample shape'] = tuple(np.shape(s))
+            for o in range(np.shape(s)[0]):
+                for k in range(np.shape(s)[1]):
+                    out['sample[%d,%d]' % (o, k)] = s[o][k][0]
+        return out
+
+    def restrict(self, full_out, free_idx):
+        return dict(full_out)
+
+
 class _LLFix(object):
     """LogLikelihood is reducible in place: same interface as the wrappers."""
 
@@ -395,6 +451,8 @@ def make_adapter(B, spec):
         return MechAdapter(B, spec[1])
     if kind == 'll':
         return LLAdapter(B, spec[1])
+    if kind == 'pm':
+        return PMAdapter(B, spec[1])
     raise ValueError(kind)
 
 
@@ -466,7 +524,7 @@ def case_step(B, cfg):
            '%r vs %d' % (A.count(obj), len(free)))
     if hasattr(obj, 'n_fixed_parameters'):
         B.fact('n_fixed_parameters', obj.n_fixed_parameters() == n - len(free))
-    if not free and cfg['object'][0] != 'mech':
+    if not free and cfg['object'][0] not in ('mech', 'pm'):
         return
     got = A.evaluate(obj, [x[k] for k in free], free)
     want = A.restrict(A.evaluate(A.raw(), fullv, list(range(n))), free)
@@ -537,7 +595,9 @@ def objects(tier):
             ('pop', [U('pooled'), U('lognormal_nc')], False),
             ('pop', [U('gaussian', 1, 1)], True),
             ('mech', 3),
-            ('ll', ['Gaussian']), ('ll', ['LogNormal'])]
+            ('ll', ['Gaussian']), ('ll', ['LogNormal']),
+            ('pm', ['Gaussian', 'Gaussian']),
+            ('pm', ['ConstantAndMultiplicative'])]
     if not q:
         out += [('pop', [U('gaussian', 2)], True),
                 ('pop', [U('lognormal_nc', 1, 1)], False),
@@ -545,7 +605,9 @@ def objects(tier):
                 ('pop', [U('lognormal', 1, 1), U('pooled')], False),
                 ('mech', 4),
                 ('ll', ['ConstantAndMultiplicative']),
-                ('ll', ['Gaussian', 'Multiplicative'])]
+                ('ll', ['Gaussian', 'Multiplicative']),
+                ('pm', ['ConstantAndMultiplicative', 'LogNormal']),
+                ('pm', ['Multiplicative'])]
     return out
 
 
@@ -554,7 +616,7 @@ def n_of(spec):
         return refs.em_nparams(spec[1])
     if spec[0] == 'mech':
         return spec[1]
-    if spec[0] == 'll':
+    if spec[0] in ('ll', 'pm'):
         return 2 + sum(refs.em_nparams(e) for e in spec[1])
     n = 0
     for u in spec[1]:
@@ -589,14 +651,14 @@ def jobs(tier):
 
 
 BOUNDS = dict(
-    quick='15 reducible objects with 1..4 parameters; all (pre-state, call '
+    quick='17 reducible objects (2 predictive models) with 1..4 parameters; all (pre-state, call '
           'dictionary) pairs up to 120 per object (evenly spaced when there '
           'are more: 2^n * 3^n); every second transition with an evaluation '
           'between the two calls',
-    thorough='22 objects incl. 2-dim, covariate and heterogeneous population '
+    thorough='26 objects incl. 2-dim, covariate and heterogeneous population '
              'models, 4-parameter mechanistic model, two-output likelihood; '
              '<= 700 transitions per object',
     outside='ProblemModellingController.fix_parameters (needs a pandas data '
-            'set); predictive models (covered for the wrapped sub-models '
-            'only); SBML-backed ReducedMechanisticModel (C09/C11)')
+            'set); population-level predictive models (covered for the wrapped '
+            'sub-models only); SBML-backed ReducedMechanisticModel (C09/C11)')
 TRUSTED = ['z3', 'RNG stub', 'the unfixed objects as reference (C01, C04, C05)']
